@@ -9,7 +9,7 @@ func ApplyFunc1ArrayType(dest, source NDArrayType, fn func(val ArrayType) ArrayT
 		for i := range destSlice {
 			destSlice[i] = fn(sourceSlice[i])
 		}
-
+		storeUnrolledArrayType(dest, destSlice)
 		return
 	}
 
@@ -21,6 +21,20 @@ func ApplyFunc1ArrayType(dest, source NDArrayType, fn func(val ArrayType) ArrayT
 		Increment(idx, shape)
 	}
 
+}
+
+// storeUnrolledArrayType writes values computed on dest.Unroll() back through the array.
+// Unroll aliases the storage of a Go-backed array (the copy below is then onto itself), but
+// returns a copy for a C-backed one, whose result would otherwise be lost.
+func storeUnrolledArrayType(dest NDArrayType, vals []ArrayType) {
+	if len(vals) == 0 {
+		return
+	}
+	flat, err := dest.ReshapeFast([]int{len(vals)})
+	if err != nil {
+		panic(err.Error())
+	}
+	flat.Apply([]int{0}, 0, 1, vals)
 }
 
 func ScaleArrayTypeArray(dest, source NDArrayType, scale ArrayType) {
@@ -35,7 +49,7 @@ func AddToArrayTypeArray(dest, source NDArrayType) {
 		for i := range destSlice {
 			destSlice[i] += sourceSlice[i]
 		}
-
+		storeUnrolledArrayType(dest, destSlice)
 		return
 	}
 
